@@ -66,6 +66,8 @@ pub enum Sid {
     Foreign,
     Absent,
     Malformed,
+    /// option 54 present with the value 0.0.0.0: an address like any other that is not ours
+    Zero,
 }
 
 #[derive(Clone, Debug, Serialize, Deserialize, PartialEq, Eq)]
@@ -182,6 +184,7 @@ fn sid_strategy() -> impl Strategy<Value = Sid> {
         1 => Just(Sid::OtherOurs),
         2 => Just(Sid::Foreign),
         1 => Just(Sid::Malformed),
+        1 => Just(Sid::Zero),
     ]
 }
 
@@ -663,6 +666,7 @@ impl Sim {
             Sid::Foreign => Some(vec![192, 168, 77, 1]),
             Sid::Absent => None,
             Sid::Malformed => Some(vec![10, 9, 0]),
+            Sid::Zero => Some(vec![0, 0, 0, 0]),
         }
     }
 
